@@ -7,13 +7,16 @@ EXTENDS GkdiGraph, TLC, Json, IOUtils, FiniteSetsExt
 VARIABLE dummy
 TInit == dummy = 0
 TNext == UNCHANGED dummy
+(* t = clock value at the first read, t2 = at the last read during the call (equal when the clock was read once): *)
+(* the named interval must contain an instant of the call                                                      *)
 Fails(ln) ==
-  (IF ~LimbOK(ln.t) THEN {"MACHINERY_bad_limbs"} ELSE {})
-  \cup (IF ln.res = "blob" /\ ~Contains(ln.l0, ln.l1, ln.l2, ln.t)
+  (IF ~LimbOK(ln.t) \/ ~LimbOK(ln.t2) THEN {"MACHINERY_bad_limbs"} ELSE {})
+  \cup (IF ln.res = "blob" /\ ~Contains(ln.l0, ln.l1, ln.l2, ln.t) /\ ~Contains(ln.l0, ln.l1, ln.l2, ln.t2)
           THEN {IF ln.l1 \notin Idx \/ ln.l2 \notin Idx THEN "index_out_of_range"
                 ELSE IF StartHi(ln.l0, ln.l1, ln.l2) > ln.t[1] THEN "names_future_interval"
                 ELSE "names_past_interval"} ELSE {})
   \cup (IF ln.res = "blob" /\ IntervalOf(ln.t) # [l0 |-> ln.l0, l1 |-> ln.l1, l2 |-> ln.l2]
+                        /\ IntervalOf(ln.t2) # [l0 |-> ln.l0, l1 |-> ln.l1, l2 |-> ln.l2]
           THEN {"differs_from_msgkdi_formula"} ELSE {})
   \cup (IF ln.res # "blob" THEN {"protect_from_cache_failed"} ELSE {})
 Result ==
